@@ -235,9 +235,16 @@ theorem hostKey_canonHost (ace puny : Str → Str) (hp : PunyLaws puny)
 
 /-! ### text components keep their decoded bytes -/
 
+theorem pctStr_safelyQuoteBy {f : Char → Bool} (hf : SafeSet f) (s : Str) :
+    pctStr (safelyQuoteBy f s) = pctStr s := by
+  unfold pctStr safelyQuoteBy
+  rw [tokens_render_of_canon _ (canon_quoteToksBy hf (wf_tokens s)), pct_quoteToksBy]
+
 theorem pctStr_safelyQuote (s : Str) : pctStr (safelyQuote s) = pctStr s := by
-  unfold pctStr safelyQuote
-  rw [tokens_render_of_canon _ (canon_quoteToks (wf_tokens s)), pct_quoteToks]
+  rw [safelyQuote_eq_by]; exact pctStr_safelyQuoteBy safeSet_quoteSafe s
+
+theorem pctStr_quoteQueryItem (s : Str) : pctStr (quoteQueryItem s) = pctStr s :=
+  pctStr_safelyQuoteBy safeSet_quoteSafeQ s
 
 theorem pctStr_safelyUnquote (U : List UInt8) (hU : (0x25 : UInt8) ∈ U) (s : Str) :
     pctStr (safelyUnquote U s) = pctStr s := by
@@ -382,15 +389,15 @@ theorem wf_unquoteQsl (qsl : List (Str × Option Str)) (h : ∀ kv ∈ qsl, Item
       exact not_mem_safelyUnquote _ sep_amp (by decide) (by decide) v0 (h0.2.2 v0 rfl)
 
 /-- a character that `quote` escapes does not occur in the output of `safely_quote` -/
-theorem not_mem_safelyQuote {c : Char} (hc : Sep c) (hq : quoteSafe c = false) (s : Str) :
-    c ∉ safelyQuote s := by
+theorem not_mem_safelyQuoteBy {f : Char → Bool} {c : Char} (hc : Sep c) (hq : f c = false) (s : Str) :
+    c ∉ safelyQuoteBy f s := by
   intro hmem
-  simp only [safelyQuote, render, quoteToks, List.mem_flatMap] at hmem
+  simp only [safelyQuoteBy, render, quoteToksBy, List.mem_flatMap] at hmem
   obtain ⟨t', ⟨t, ht, ht'⟩, hch⟩ := hmem
   have hw := wf_tokens s t ht
   cases t with
   | raw c0 =>
-    simp only [quoteTok] at ht'
+    simp only [quoteTokBy] at ht'
     split at ht'
     · rename_i hs
       simp only [List.mem_singleton] at ht'
@@ -407,7 +414,7 @@ theorem not_mem_safelyQuote {c : Char} (hc : Sep c) (hq : quoteSafe c = false) (
       · rw [e] at hc; have := hc.2; rw [hcan.1] at this; cases this
       · rw [e] at hc; have := hc.2; rw [hcan.2] at this; cases this
   | esc h1 h2 =>
-    simp only [quoteTok, List.mem_singleton] at ht'
+    simp only [quoteTokBy, List.mem_singleton] at ht'
     subst ht'
     simp only [renderTok, List.mem_cons, List.not_mem_nil, or_false] at hch
     rcases hch with e | e | e
@@ -415,26 +422,39 @@ theorem not_mem_safelyQuote {c : Char} (hc : Sep c) (hq : quoteSafe c = false) (
     · rw [e] at hc; have := hc.2; rw [hw.1] at this; cases this
     · rw [e] at hc; have := hc.2; rw [hw.2] at this; cases this
   | stray =>
-    simp only [quoteTok, List.mem_singleton] at ht'
-    subst ht'
-    simp only [renderTok, List.mem_cons, List.not_mem_nil, or_false] at hch
-    rcases hch with e | e | e
-    · exact hc.1 e
-    · rw [e] at hc; exact absurd hc.2 (by decide)
-    · rw [e] at hc; exact absurd hc.2 (by decide)
+    simp only [quoteTokBy] at ht'
+    split at ht'
+    · simp only [List.mem_singleton] at ht'
+      subst ht'
+      simp only [renderTok, List.mem_singleton] at hch
+      exact hc.1 hch
+    · simp only [List.mem_singleton] at ht'
+      subst ht'
+      simp only [renderTok, List.mem_cons, List.not_mem_nil, or_false] at hch
+      rcases hch with e | e | e
+      · exact hc.1 e
+      · rw [e] at hc; exact absurd hc.2 (by decide)
+      · rw [e] at hc; exact absurd hc.2 (by decide)
+
+theorem not_mem_safelyQuote {c : Char} (hc : Sep c) (hq : quoteSafe c = false) (s : Str) :
+    c ∉ safelyQuote s := by
+  rw [safelyQuote_eq_by]; exact not_mem_safelyQuoteBy hc hq s
+
+theorem not_mem_quoteQueryItem {c : Char} (hc : Sep c) (hq : quoteSafeQ c = false) (s : Str) :
+    c ∉ quoteQueryItem s := not_mem_safelyQuoteBy hc hq s
 
 theorem wf_quoteQsl (qsl : List (Str × Option Str)) : ∀ kv ∈ quoteQsl qsl, ItemWf kv := by
   intro kv hkv
   simp only [quoteQsl, List.mem_map] at hkv
   obtain ⟨⟨k, v⟩, _, rfl⟩ := hkv
-  refine ⟨not_mem_safelyQuote sep_amp (by decide) k, not_mem_safelyQuote sep_eq (by decide) k, ?_⟩
+  refine ⟨not_mem_quoteQueryItem sep_amp (by decide) k, not_mem_quoteQueryItem sep_eq (by decide) k, ?_⟩
   intro v' hv'
   cases v with
   | none => simp at hv'
   | some v0 =>
     simp only [Option.map_some, Option.mem_def, Option.some.injEq] at hv'
     subst hv'
-    exact not_mem_safelyQuote sep_amp (by decide) v0
+    exact not_mem_quoteQueryItem sep_amp (by decide) v0
 
 /-- the decoded view of a query item -/
 def pctItem (kv : Str × Option Str) : List UInt8 × Option (List UInt8) :=
@@ -466,8 +486,87 @@ theorem canonQuery_items (quoted : Bool) (q : Str) :
     apply List.map_congr_left
     intro kv _
     obtain ⟨k, v⟩ := kv
-    simp only [Function.comp, pctItem, unquoteQueryItem, pctStr_safelyQuote,
+    simp only [Function.comp, pctItem, unquoteQueryItem, pctStr_quoteQueryItem,
       pctStr_safelyUnquote _ hU]
-    cases v <;> simp [pctStr_safelyQuote, pctStr_safelyUnquote _ hU]
+    cases v <;> simp [pctStr_quoteQueryItem, pctStr_safelyUnquote _ hU]
+
+/-! ### the form reading of a query item (`+` is a space, `%2B` a plus sign) -/
+
+/-- the pieces of a key / value between its raw `+` signs, percent-decoded -/
+def formPieces (s : Str) : List (List UInt8) := (splitOn s '+').map pctStr
+
+/-- form decoding (application/x-www-form-urlencoded, what a server applies to a query key or
+value): a raw `+` is a space, then percent-decoding — here: cut at the raw `+`, percent-decode
+the pieces, put the space byte between them.  `pctStr` reads `+` as a plus sign and cannot tell
+`+` from `%2B`; this reading can (FX-C01-6e09416). -/
+def formStr (s : Str) : List UInt8 := List.intercalate [0x20] (formPieces s)
+
+/-- the form-decoded view of a query item -/
+def formItem (kv : Str × Option Str) : List UInt8 × Option (List UInt8) :=
+  (formStr kv.1, kv.2.map formStr)
+
+theorem sep_plus : Sep '+' := ⟨by decide, by decide⟩
+
+/-- a safe unquoter whose unsafe set holds `+` keeps the form reading -/
+theorem formStr_safelyUnquote (U : List UInt8) (hU : (0x25 : UInt8) ∈ U) (hplus : (0x2B : UInt8) ∈ U)
+    (s : Str) : formStr (safelyUnquote U s) = formStr s := by
+  unfold formStr formPieces
+  rw [splitOn_safelyUnquote U sep_plus (by decide) (by decide) hplus, List.map_map]
+  have : (pctStr ∘ safelyUnquote U) = pctStr := by
+    funext x; exact pctStr_safelyUnquote U hU x
+  rw [this]
+
+/-- quoting with a set that holds `+` keeps the form reading -/
+theorem formStr_safelyQuoteBy {f : Char → Bool} (hf : SafeSet f) (hplus : f '+' = true) (s : Str) :
+    formStr (safelyQuoteBy f s) = formStr s := by
+  unfold formStr formPieces
+  rw [splitOn_safelyQuoteBy sep_plus hplus, List.map_map]
+  have : (pctStr ∘ safelyQuoteBy f) = pctStr := by
+    funext x; exact pctStr_safelyQuoteBy hf x
+  rw [this]
+
+/-- **query clause of C01, form reading**: re-splitting the canonical query gives the same
+ordered list of FORM-decoded keys and values as splitting the input query — a `+` (space) is
+never rewritten into `%2B` (plus sign) or back.  Rests on the table fact that `+` is in
+`UNSAFE_FOR_QUERY_ITEM` (`hplus`, a table obligation of C01) and on `safely_quote_qsl` leaving
+`+` alone (`quoteSafeQ '+'`). -/
+theorem canonQuery_items_form (hplus : (0x2B : UInt8) ∈ Gen.Quote.unsafeForQueryItem)
+    (quoted : Bool) (q : Str) :
+    (safeQslIter (canonQuery quoted q)).map formItem = (safeQslIter q).map formItem := by
+  have hne : safeQslIter q ≠ [] := by
+    rw [safeQslIter_eq]; simpa using splitOn_ne_nil q '&'
+  have hwf := wf_safeQslIter q
+  have hU : (0x25 : UInt8) ∈ Gen.Quote.unsafeForQueryItem := by decide
+  have hu : ∀ x, formStr (unquoteQueryItem x) = formStr x :=
+    fun x => formStr_safelyUnquote _ hU hplus x
+  have hq : ∀ x, formStr (quoteQueryItem x) = formStr x :=
+    fun x => formStr_safelyQuoteBy safeSet_quoteSafeQ (by decide) x
+  unfold canonQuery
+  cases quoted with
+  | false =>
+    simp only [Bool.false_eq_true, if_false]
+    rw [safeQslIter_serialize _ (by simpa [unquoteQsl] using hne) (wf_unquoteQsl _ hwf)]
+    simp only [unquoteQsl, List.map_map]
+    apply List.map_congr_left
+    intro kv _
+    obtain ⟨k, v⟩ := kv
+    simp only [Function.comp, formItem, hu]
+    cases v <;> simp [hu]
+  | true =>
+    simp only [if_true]
+    rw [safeQslIter_serialize _ (by simpa [unquoteQsl, quoteQsl] using hne) (wf_quoteQsl _)]
+    simp only [unquoteQsl, quoteQsl, List.map_map]
+    apply List.map_congr_left
+    intro kv _
+    obtain ⟨k, v⟩ := kv
+    simp only [Function.comp, formItem, hu, hq]
+    cases v <;> simp [hu, hq]
+
+/-- the two readings differ exactly where the defect was: `+` and `%2B` have the same
+percent-decoded bytes and different form-decoded bytes; `+` and `%20` the other way round -/
+example :
+    pctStr "a+b".toList = pctStr "a%2Bb".toList ∧ formStr "a+b".toList ≠ formStr "a%2Bb".toList ∧
+    formStr "a+b".toList = formStr "a%20b".toList ∧ pctStr "a+b".toList ≠ pctStr "a%20b".toList ∧
+    formStr "a+%2B%+41".toList = [0x61, 0x20, 0x2B, 0x25, 0x20, 0x34, 0x31] := by decide +kernel
 
 end Ural.Canonicalize
